@@ -12,7 +12,8 @@ PROP = {
             'Evict (API call in flight or queued on the evictor\'s lock) for one capped scope with exactly one slot left. (a) '
             'arbitrationRounds: rapid state machine over a fake API (1-3 nodes, 1-3 namespaces, 1-4 workloads with 1..11 replicas and '
             'ready/not-ready pods, replicas in graceful deletion that are still Running+Ready, bare pods, pods with max eviction cost; limits global / node / namespace in {unset, 0, 1..3}, per-workload '
-            'migrating / unavailable in {unset, 1..3, 10..100%}; pre-existing running and passed-pending jobs that may already exceed a '
+            'migrating / unavailable in {unset, 1..3, 10..100%}; SkipEvictionGates = none (40%) or any subset of the 14 legal gate names; jobs '
+            'whose spec.podRef has no UID (about half of the external / pre-existing jobs, UID sometimes filled in when the job turns Running); pre-existing running and passed-pending jobs that may already exceed a '
             'limit) with actions descheduler-evict (gated by arbitrator.Filter), external job, job starts running, running job evicts its '
             'pod (+ not-ready replacement), job succeeds / fails / aborted, job deleted, pod readiness flips, pod starts terminating, pod '
             'vanishes, arbitrator restart (new arbitratorImpl with empty in-memory state on the same fake API, every non-finished job '
@@ -36,6 +37,10 @@ PROP = {
         'job creation timestamps are distinct seconds so that the processing order of a round does not depend on Go map iteration',
         'unavailable pod of a workload = not Ready, or phase Succeeded/Failed, or being deleted (deletionTimestamp set), i.e. not '
         '(IsPodActive && Ready) in kube terms; a terminating pod is also a non-headroom reason for its own job to fail',
+        'a limit whose gate is listed in SkipEvictionGates is not asserted, every other limit is; with only MaxMigratingPerWorkload skipped '
+        'the unavailable limit still counts pods being migrated; skipping ExpectedReplicas / BarePods removes that reason from the legal '
+        'reasons for a Failed job; jobs are attributed to their pod by podRef namespace/name, so a podRef without UID changes nothing in '
+        'the oracle',
         'a restart replays only the jobs that are not finished (phase "", Pending, Running)',
         'Parallel tests: the Go scheduler decides the order inside a batch, so which interleaving is explored is not a pure function of the '
         'seed there (the oracle holds for every interleaving of correct code); the Interleaved tests are deterministic',
